@@ -804,7 +804,7 @@ class TypeBlocks(ContainerOperand):
         elif axis == 1:
             # axis 1 means we return column groups; key is a row key
             group_source = self._extract_array(row_key=key)
-            if group_source.ndim > 1 and group_source.shape[0] > 1:
+            if group_source.ndim > 1: # a list key gives 2D (also for a single row), as in the axis 0 branch
                 unique_axis = 1
         else:
             raise AxisInvalid(f'invalid axis: {axis}')
